@@ -105,6 +105,61 @@ func main() {
 		die("type hashingAlgo is not struct{Hash hash.Hash; Type string}: state carried between calculations is outside the model")
 	}
 
+	// ---- the method set of hashingAlgo: a digest can be computed through CalculateWithContext only
+	for _, d := range hf.Decls {
+		fd, ok := d.(*ast.FuncDecl)
+		if !ok || fd.Recv == nil || len(fd.Recv.List) != 1 {
+			continue
+		}
+		t := fd.Recv.List[0].Type
+		if st, ok := t.(*ast.StarExpr); ok {
+			t = st.X
+		}
+		if id, ok := t.(*ast.Ident); ok && id.Name == "hashingAlgo" {
+			switch fd.Name.Name {
+			case "CalculateWithContext", "Calculate", "GetType":
+			default:
+				die("hashingAlgo has a method outside the translated fragment: %s", fd.Name.Name)
+			}
+		}
+	}
+	if m := findMethod(hf, "hashingAlgo", "GetType"); m == nil || norm(fset, m.Body) != "{returnh.Type}" {
+		die("GetType is not `return h.Type`")
+	}
+	// ---- the string entry points
+	findFunc := func(name string) *ast.FuncDecl {
+		for _, d := range hf.Decls {
+			if fd, ok := d.(*ast.FuncDecl); ok && fd.Recv == nil && fd.Name.Name == name {
+				return fd
+			}
+		}
+		return nil
+	}
+	sshapes := map[string]string{
+		"ifhashingAlgo==nil{return\"\"}":                           "SSNilHasher",
+		"hash,err:=hashingAlgo.Calculate(strings.NewReader(text))": "SSCalcStringReader",
+		"iferr!=nil{return\"\"}":                                   "SSEmptyOnErr",
+		"returnhash":                                               "SSReturnHash",
+	}
+	csh := findFunc("CalculateStringHash")
+	if csh == nil || norm(fset, csh.Type) != "func(hashingAlgoIHash,textstring)string" {
+		die("CalculateStringHash(hashingAlgo IHash, text string) string not found")
+	}
+	var sbody []string
+	for _, st := range csh.Body.List {
+		c, ok := sshapes[norm(fset, st)]
+		if !ok {
+			die("CalculateStringHash: statement outside the translated fragment: %s", norm(fset, st))
+		}
+		sbody = append(sbody, c)
+	}
+	if f := findFunc("CalculateHash"); f == nil || norm(fset, f.Body) != "{hashing,err:=NewHashingAlgorithm(htype)iferr!=nil{return\"\"}returnCalculateStringHash(hashing,text)}" {
+		die("CalculateHash does not build a fresh hasher and call CalculateStringHash on it")
+	}
+	if f := findFunc("CalculateMD5Hash"); f == nil || norm(fset, f.Body) != "{returnCalculateHash(text,HashMd5)}" {
+		die("CalculateMD5Hash is not `return CalculateHash(text, HashMd5)`")
+	}
+
 	// ---- fileHashing.calculateFile
 	cf := findMethod(ff, "fileHashing", "calculateFile")
 	if cf == nil {
@@ -213,6 +268,9 @@ func main() {
 	b.WriteString("   CalculateFile / CalculateFileWithContext pass Calculate / CalculateWithContext of the same object as hashFunc;\n")
 	b.WriteString("   neither struct carries anything between calls except the hash.Hash itself *)\n")
 	b.WriteString("Definition calculate_file_body : list fstmt := [" + strings.Join(fbody, "; ") + "].\n")
+	b.WriteString("\n(* hash.go  func CalculateStringHash(hashingAlgo IHash, text string) string;  CalculateHash / CalculateMD5Hash call it on a\n")
+	b.WriteString("   fresh hasher;  hashingAlgo has no other method that computes a digest *)\n")
+	b.WriteString("Definition string_hash_body : list sstmt := [" + strings.Join(sbody, "; ") + "].\n")
 	b.WriteString("\n(* tarfs.go  newTarFSAdapterFromReader: the file system handed out wraps afero's tarfs so that Open / OpenFile rewind the\n")
 	b.WriteString("   handle (Seek(0, io.SeekStart) on every non-directory) — true; or is afero's tarfs as it is — false *)\n")
 	b.WriteString("Definition tar_open_rewinds : bool := " + tarRewinds + ".\n")
